@@ -55,6 +55,7 @@ def snapshot(env):
             "id": job.identifier[:8],
             "index": V.W.jobs.index(job) if job in V.W.jobs else None,
             "xp": env["jobxp"].get(var),
+            "xpi": env.get("jobxpi", {}).get(var),
             "dup": var in env.get("dupvars", ()),
         }
     for var, tok in env["tokens"].items():
@@ -69,18 +70,20 @@ def run_ops(ops, env):
     for op in ops:
         k = op["op"]
         if k == "xp":
-            xrec = {"name": op["name"], "failed": False, "unfinished": None, "exc": None, "registry": None}
+            xrec = {"name": op["name"], "failed": False, "unfinished": None, "exc": None, "registry": None, "index": len(env["rec"]["xps"])}
             env["rec"]["xps"].append(xrec)
             xp = None
             try:
                 with experiment(env["wd"], op["name"], launcher=X.make_launcher(env["wd"])) as xp:
                     V.W.events.append(("xp_enter", op["name"], env["proc"].pid))
                     env["xps"].append(xp)
+                    env.setdefault("xrecs", []).append(xrec)
                     try:
                         run_ops(op["body"], env)
                     finally:
                         V.W.events.append(("xp_body_end", op["name"], env["proc"].pid))
                         env["xps"].pop()
+                        env["xrecs"].pop()
                 V.W.events.append(("xp_exit", op["name"], env["proc"].pid))
             except FailedExperiment:
                 xrec["failed"] = True
@@ -104,6 +107,7 @@ def run_ops(ops, env):
             cfg = build_job(op, env)
             env["jobs"][op["var"]] = cfg
             env["jobxp"][op["var"]] = env["rec"]["xps"][-1]["name"] if env["rec"]["xps"] else None
+            env.setdefault("jobxpi", {})[op["var"]] = env["xrecs"][-1]["index"] if env.get("xrecs") else None
             kw = {}
             if "_init" in op:
                 kw["init_tasks"] = op["_init"]
@@ -116,6 +120,17 @@ def run_ops(ops, env):
                 env["rec"]["dups"].append({"var": op["var"], "of": op["dup_of"], "same_output": out is first,
                                            "same_job": cfg.__xpm__.job is env["jobs"][op["dup_of"]].__xpm__.job,
                                            "after_fail": bool(op.get("after_fail"))})
+        elif k == "rmjob":
+            # the user removes the directory of a job between two experiments (e.g. to have it run again)
+            jp = env["jobs"][op["var"]].__xpm__.job.path
+            for f in sorted(jp.rglob("*"), reverse=True):
+                if f.is_dir() and not f.is_symlink():
+                    f.rmdir()
+                else:
+                    f.unlink()
+            jp.rmdir()
+            cfg = env["jobs"][op["var"]]
+            V.W.events.append(("rmjob", op["var"], f"j{cfg.__xpm__.values.get('x', 0)}", cfg.__xpm__.job.identifier[:8]))
         elif k == "wait":
             st = env["jobs"][op["var"]].__xpm__.job.wait()
             env["rec"]["waits"][op["var"]] = st.name
